@@ -41,6 +41,7 @@ DurShapes == { <<Fld0(W("a"), FDur), Fld0(W("b"), FS("i32"))>>,
 G1 == {S1(<<StructD("Rec", <<Fld0(W("a"), ft), Fld0(MyField, FS("i32"))>>)>>) : ft \in FieldTypes1}
 GD == {S1(<<StructD("Rec", fs)>>) : fs \in DurShapes}
 
+
 (* ---- G2: container attributes on a struct ---- *)
 Base2 == StructD("Rec", <<Fld0(VTasty, FS("i32")), Fld0(W("id"), FS("str")), Fld0(W("z42"), FOpt(FS("i64")))>>)
 G2 == {S1(<<d>>) : d \in
@@ -185,7 +186,11 @@ G7 ==
     NestIn(FVec(FNamed("Trans")), <<[StructD("Trans", <<Fld0(W("inner"), FNamed("Color"))>>) EXCEPT !.transparent = TRUE], Plain>>) }
 
 Tag(S, g) == {[defs |-> sc.defs, root |-> sc.root, grp |-> g] : sc \in S}
-Scenarios == Tag(GD, "GD") \cup Tag(G1, "G1") \cup Tag(G2, "G2") \cup Tag(G3, "G3") \cup Tag(G4, "G4") \cup Tag(G5, "G5")
+(* [T; N] whose element type reaches a named type only through a container: the fields after field_0 must refer *)
+GA == {S1(<<StructD("Rec", <<Fld0(W("a"), FArr(2, ft))>>), InnerD>>)
+         : ft \in {FNamed("Inner"), FMap(FNamed("Inner")), FVec(FNamed("Inner")), FOpt(FNamed("Inner"))}}
+      \cup {S1(<<StructD("Rec", <<Fld0(W("a"), FArr(3, FMap(FNamed("Inner")))), Fld0(W("b"), FNamed("Inner"))>>), InnerD>>)}
+Scenarios == Tag(GA, "GD") \cup Tag(GD, "GD") \cup Tag(G1, "G1") \cup Tag(G2, "G2") \cup Tag(G3, "G3") \cup Tag(G4, "G4") \cup Tag(G5, "G5")
              \cup Tag(G6, "G6") \cup Tag(G7, "G7")
 
 (* ---- values ---- *)
